@@ -84,6 +84,11 @@ def gen_fragment(rng, n, measured, allow_meas=True, small=True):
         if cand and nm in ("Dgate", "Xgate", "Zgate", "Rgate") and rng.random() < 0.5:
             c["mpar"] = {"mode": int(rng.choice(cand)), "scale": float(rng.choice([0.5, -0.3, 0.2]))}
         cmds.append(c)
+        if len(m) == 1 and "mpar" not in c and c["p"] and rng.random() < 0.25:
+            # a second operation of the same family right behind it: a pair the optimizer merges
+            c2 = dict(c, p=list(c["p"]))
+            c2["p"][0] = float(rng.uniform(0.5, 0.95)) if nm == "LossChannel" else float(rng.uniform(-0.3, 0.3))
+            cmds.append(c2)
     return cmds, measured
 
 
@@ -502,16 +507,17 @@ def run_case(case, rep, env):
         before = prog_snap(P)
         if pattern == "compile":
             comp_name = {"gaussian": "gaussian", "fock": "fock", "bosonic": "bosonic"}[backend]
-            try:
-                C1 = P.compile(compiler=comp_name, optimize=bool(len(case["A"]) % 2))
-            except Exception as e:
-                rep.observe("compile-raised:" + type(e).__name__)
-                return
-            rep.monitor("snapshot:compile")
-            diff = snap_diff(before, prog_snap(P))
-            if diff:
-                V("Program.compile", "source-modified", "compile changed the user's program: %s" % diff)
-                return
+            for opt in (bool(len(case["A"]) % 2), True):
+                try:
+                    C1 = P.compile(compiler=comp_name, optimize=opt)
+                except Exception as e:
+                    rep.observe("compile-raised:" + type(e).__name__)
+                    return
+                rep.monitor("snapshot:compile")
+                diff = snap_diff(before, prog_snap(P))
+                if diff:
+                    V("Program.compile", "source-modified", "compile(optimize=%s) changed the user's program: %s" % (opt, diff))
+                    return
         results = []
         for k in range(2):
             with Scripted(env) as sc:
